@@ -579,6 +579,143 @@ def raw_buffer_uses(prog, res, ents):
     res.extra["raw_buffer_shift_sites"] = n
 
 
+def unvalidated_scalars(prog, res, ents):
+    """C14.U (second half of the property): a scalar that travels from a read of the image into a field of the returned object
+    without ever being compared with anything on the way (in the reader, or in the helpers it is handed to) can hold any value of
+    its type; a method of the object that does overflow-checked arithmetic on that field (`count -= 1`, `cur_min + nibble`) then
+    panics for some image.  Provenance is followed through builder parameters to the call sites (3 hops)."""
+    from .common import Sym
+    reach = C.reach_from(prog, ents)
+    rset = {g.id for g in reach}
+    syms = {}
+
+    def S(g):
+        if g.id not in syms:
+            syms[g.id] = Sym(prog, g)
+        return syms[g.id]
+
+    def strip(e):
+        while isinstance(e, tuple) and e and e[0] == "cast":
+            e = e[1]
+        return e
+    cmp_cache = {}
+
+    def compared(g, key):
+        """is the leaf `key` (a tagged read or a parameter name) an operand of a comparison / match in g, or handed to an
+        in-crate callee that compares the parameter it lands in?"""
+        ck = (g.id, key)
+        if ck in cmp_cache:
+            return cmp_cache[ck]
+        cmp_cache[ck] = False
+        sg = S(g)
+        hit = False
+        for b in g.blocks:
+            if b.cleanup:
+                continue
+            for st in b.stmts:
+                if st[0] == "=" and st[2][0] in ("bin", "checked") and st[2][1] in ("Lt", "Le", "Gt", "Ge", "Eq", "Ne"):
+                    try:
+                        e = sg.at(b.idx, "t").rvalue(st[2])
+                    except Exception:
+                        continue
+                    if any(sym.show(y) == key for y in sym.walk(e) if y[0] in ("call", "param")):
+                        hit = True
+            t = b.term
+            if t[0] == "switch" and t[4] != "bool":
+                try:
+                    e = sg.at(b.idx, "t").operand(t[1])
+                except Exception:
+                    e = None
+                if e is not None and strip(e)[0] != "discr" and any(sym.show(y) == key for y in sym.walk(e) if y[0] in ("call", "param")):
+                    hit = True          # a match on the value itself (not on the tag of the Result it arrived in)
+            if t[0] == "call" and not hit and (t[1].get("callee") or "").rsplit("::", 1)[-1] in (
+                    "contains", "cmp", "partial_cmp", "eq", "ne", "lt", "le", "gt", "ge", "min", "max", "clamp", "checked_sub", "checked_add", "checked_mul", "try_from", "try_into"):
+                for a in t[1]["args"]:
+                    try:
+                        ea = sg.at(b.idx, "t").operand(a)
+                    except Exception:
+                        continue
+                    if any(sym.show(y) == key for y in sym.walk(ea) if y[0] in ("call", "param")):
+                        hit = True
+            if t[0] == "call" and not hit:
+                cal = prog.fns.get(t[1].get("callee") or "")
+                if cal is not None and not cal.promoted:
+                    for i, a in enumerate(t[1]["args"]):
+                        try:
+                            ea = strip(sg.at(b.idx, "t").operand(a))
+                        except Exception:
+                            continue
+                        if sym.show(ea) == key and i + 1 <= cal.argc and cal.local_name(i + 1):
+                            if compared(cal, cal.local_name(i + 1)):
+                                hit = True
+        cmp_cache[ck] = hit
+        return hit
+
+    def validated(g, e, depth=0):
+        """three-valued: True = compared somewhere on its way, False = a plain image scalar nobody looked at, None = not a plain scalar"""
+        e = strip(e)
+        if e[0] == "call" and e[1].startswith("read_") and "@" in e[1]:
+            key = sym.show(e)
+            return compared(g, key)
+        if e[0] == "param" and depth < 3:
+            key = sym.show(e)
+            if compared(g, key):
+                return True
+            outs = []
+            for h in reach:
+                for b, site in h.calls():
+                    if site.get("callee") == g.id and e[1] - 1 < len(site["args"]):
+                        outs.append(validated(h, S(h).at(b, "t").operand(site["args"][e[1] - 1]), depth + 1))
+            if not outs or any(o is None for o in outs):
+                return None
+            return all(outs)
+        return None
+    fields = {}     # (adt, field) -> (builder, verdict)
+    for g in reach:
+        if not g.item_name.startswith(("deserialize", "new", "from_", "read_", "make", "try_")) and g.id not in ents:
+            continue        # only the routines that build the returned object
+        for (ff, bi, kind, place, rv, span, adt, nm) in sym.field_stores(prog, fns=[g]):
+            if kind == "call" or rv is None:
+                continue
+            a = prog.adts.get(adt)
+            if not a or a.get("kind") != "struct":
+                continue
+            ty = dict((x[0], x[1]) for x in a["variants"][0]["fields"]).get(nm, "")
+            if ty not in ("u8", "u16", "u32", "u64", "usize", "i32", "i64"):
+                continue
+            try:
+                e = S(g).at(bi, "t").rvalue(rv)
+            except Exception:
+                continue
+            v = validated(g, e)
+            if v is not None:
+                old = fields.get((adt, nm))
+                fields[(adt, nm)] = (g.id, v if old is None else (old[1] and v))
+    n = 0
+    for (adt, fld), (builder, ok) in sorted(fields.items()):
+        uses = []
+        for m in C.fns_of(prog, adt):
+            if m.promoted or m.id in rset and m.item_name.startswith("deserialize"):
+                continue
+            sm = None
+            for b in m.blocks:
+                t = b.term
+                if b.cleanup or t[0] != "assert" or t[3] not in ("Overflow:Sub", "Overflow:Add", "Overflow:Mul"):
+                    continue
+                sm = sm or Sym(prog, m)
+                ops = [strip(sm.at(b.idx, "t").operand(x)) for x in t[4][:2]]
+                if any(o[0] == "field" and o[2] == fld and o[1][0] == "param" and o[1][1] == 1 for o in ops):
+                    uses.append((m, t[3], t[6] if len(t) > 6 else None))
+        for m, kind, span in uses:
+            n += 1
+            res.tri(bool(ok), "C14.U", "C14.U|%s|%s|%s" % (m.id, fld, kind),
+                    "%s does %s on `self.%s`, which %s fills from the image without anything on the way comparing it: for some image value the "
+                    "decoded object panics (overflow checks) on use" % (m.id, kind, fld, builder), m.id, span)
+    res.rule("C14.U", len(fields), 3, "scalar fields of returned objects that come straight from an image read")
+    res.extra["image_scalar_fields"] = ["%s.%s%s" % (a.rsplit("::", 1)[-1], f_, "" if v[1] else " (never compared)") for (a, f_), v in sorted(fields.items())]
+    res.extra["image_scalar_uses"] = n
+
+
 def run(prog, ctx):
     res = Result("C14")
     ents, missing = entries(prog)
@@ -597,6 +734,7 @@ def run(prog, ctx):
     object_invariants(prog, res, ents)
     aux_slot_agreement(prog, res)
     raw_buffer_uses(prog, res, ents)
+    unvalidated_scalars(prog, res, ents)
     nan_obl = res.obligations
     for o in an.obligations:
         b = srcs(o.taint)
